@@ -46,16 +46,19 @@ func viFlateWrite(level int, small bool, n int, seed uint32) func() {
 	}
 }
 
-// viSkewed has Fibonacci symbol frequencies over 18 symbols: the Huffman tree
-// is deeper than 15, so the length-limiting path of the code generator runs.
+// viSkewed has geometric symbol frequencies (1,1,2,4,...,32768): the optimal
+// Huffman tree is deeper than 15, so the length-limiting path of the code
+// generator runs.
 func viSkewed(rot int) []byte {
-	var d []byte
-	a, b := 1, 1
-	for s := 0; s < 18; s++ {
+	d := make([]byte, 0, 65600)
+	d = append(d, byte('A'+rot%17))
+	a := 1
+	for s := 1; s < 17; s++ {
+		c := byte('A' + (s+rot)%17)
 		for i := 0; i < a; i++ {
-			d = append(d, byte('A'+(s+rot)%18))
+			d = append(d, c)
 		}
-		a, b = b, a+b
+		a *= 2
 	}
 	return d
 }
